@@ -96,6 +96,27 @@ class Checker:
                      detail_bad or detail_ok, witness)
         return bool(cond)
 
+    def decide(self, verdict, rule, mod, node, function, construct, detail_ok='', detail_bad=''):
+        """Record the outcome of match.classify(): 'match' discharges the
+        obligation, 'near' is a violation at the named construct, 'far' means
+        the construct was not recognised (analysis incomplete, exit 2) - a
+        restructured implementation is never reported as a violation merely
+        because its shape is unfamiliar."""
+        kind = verdict[0] if isinstance(verdict, tuple) else verdict
+        if kind == 'match':
+            self.ok(rule, mod, node, construct, detail_ok)
+            return True
+        if kind == 'near':
+            extra = ''
+            if isinstance(verdict, tuple) and len(verdict) >= 3 and verdict[2] is not None:
+                extra = ' [closest accepted form: %s; %d position(s) differ]' % (
+                    verdict[2] if isinstance(verdict[2], str) else '<pattern>', verdict[1])
+            self.bad(rule, mod, node, function, construct, (detail_bad or detail_ok) + extra)
+            return False
+        self.missing(rule, 'construct not recognised at %s: %s  (%s)' % (
+            self._site(mod, node), norm_text(construct)[:160], (detail_bad or detail_ok)[:160]))
+        return False
+
     def observe(self, rule, mod, node, text):
         self.observations.append({'rule': rule, 'site': self._site(mod, node),
                                   'text': norm_text(text)[:300]})
